@@ -12,6 +12,7 @@ package chipsim
 
 import (
 	"crypto/cipher"
+	"errors"
 )
 
 type smSession struct {
@@ -219,4 +220,31 @@ func (s *smSession) wrap(plain *Command, data []byte, swv uint16) []byte {
 	}
 	body = append(body, EncodeTLV(0x8E, mac)...)
 	return sw(body, swv)
+}
+
+// ProtectResponse builds the protected response APDU a chip holding (ksEnc, ksMac) would produce
+// for (data, sw) with the send sequence counter already at ssc (the value used for the MAC and,
+// with AES, the IV). oddINS selects DO'85' instead of DO'87'. Exported for the harness: responses
+// "of another session" and expected values.
+func ProtectResponse(cipher string, ksEnc, ksMac, ssc []byte, oddINS bool, data []byte, swv uint16) ([]byte, error) {
+	s, err := newSMSession(CipherAlg(cipher), ksEnc, ksMac, nil, "EXTERNAL")
+	if err != nil {
+		return nil, err
+	}
+	if len(ssc) != len(s.ssc) {
+		return nil, errors.New("chipsim: SSC length does not match the cipher")
+	}
+	// wrap increments before use: start one below
+	copy(s.ssc, ssc)
+	for i := len(s.ssc) - 1; i >= 0; i-- {
+		s.ssc[i]--
+		if s.ssc[i] != 0xFF {
+			break
+		}
+	}
+	ins := byte(0xB0)
+	if oddINS {
+		ins = 0xB1
+	}
+	return s.wrap(&Command{INS: ins}, data, swv), nil
 }
